@@ -184,6 +184,33 @@ class StmtMixin:
                 self.write_field(s, base, base.ty[1], tgt.attr, v, node.lineno)
                 yield s, ("normal",)
             return
+        if isinstance(tgt, ast.Subscript) and not isinstance(tgt.slice, ast.Slice):
+            # d[k] = v on a heap dictionary: k keeps its position if present, is appended otherwise
+            for st1, vals in self.ev_list([tgt.value, tgt.slice], st):
+                if isinstance(vals, Raise):
+                    yield st1, ("raise", vals)
+                    continue
+                base, idx = vals
+                if not (is_ref(base.ty) and base.ty[1].startswith("dict_")):
+                    raise Unsupported(f"subscript store on {base.ty}")
+                cls = base.ty[1]
+                s = st1.fork()
+                ks = self.read_field(s, base, cls, "keys")
+                mp = self.read_field(s, base, cls, "map")
+                kt = self.coerce(idx, ks.ty[1]).t
+                if v.ty in ("pydict", "pyset", "pylist"):
+                    elem = models.CLASSES[cls].get("elem") or self.c.get("dict_values", {}).get(cls, "opaque")
+                    v = self.box(s, v, ("ref", elem))
+                newkeys = fresh_const("skeys", ks.t.sort())
+                xk = bound_var("xk", kt.sort())
+                if not self.c.get("dict_membership_only"):
+                    s.conds.append(newkeys == z3.If(z3.Contains(ks.t, z3.Unit(kt)), ks.t, z3.Concat(ks.t, z3.Unit(kt))))
+                # (consequence, stated so that membership reasoning does not depend on the sequence solver)
+                s.conds.append(z3.ForAll([xk], z3.Contains(newkeys, z3.Unit(xk)) == z3.Or(z3.Contains(ks.t, z3.Unit(xk)), xk == kt)))
+                self.write_field(s, base, cls, "keys", Val(newkeys, ks.ty), node.lineno)
+                self.write_field(s, base, cls, "map", Val(z3.Store(mp.t, kt, self.coerce(v, mp.ty[2]).t), mp.ty), node.lineno)
+                yield s, ("normal",)
+            return
         raise Unsupported(f"assignment target {type(tgt).__name__}")
 
     def st_With(self, n, st):
@@ -398,6 +425,14 @@ class StmtMixin:
 
     # ------------------------------------------------------------------ contracts at call sites
     def bind_params(self, key, args, kwargs, st=None):
+        if self.registry[key].get("external"):
+            # a library function (no source in the repository): parameters in the order the assumed contract lists them
+            ptypes = self.registry[key]["params"]
+            bound = dict(zip(ptypes, args))
+            bound.update(kwargs)
+            if set(bound) != set(ptypes):
+                raise Unsupported(f"call of external {key} with unexpected arguments")
+            return {nm: self.coerce(v, ptypes[nm]) for nm, v in bound.items()}
         fs = source.find_function(key)
         a = fs.node.args
         names = [x.arg for x in a.args]
